@@ -646,3 +646,102 @@ Example ex_pack_run :
   | _ => False
   end.
 Proof. vm_compute. repeat split; reflexivity. Qed.
+
+(* ================================================================================================================
+   Strengthening (session 3, seeded/C14-8): the descriptor of io/file.c — logical length = physical length at every
+   kill point; an accepted left-over is the complete image as a WHOLE FILE (length included), not only on
+   [0, bytes_used).  Models: C14/FileLenModel.v (fd_write = stdio_write_at, fd_trunc Physical = stdio_truncate,
+   fd_trunc Lazy = the shrink that is only applied when the descriptor is destroyed).
+   ================================================================================================================ *)
+From SqfsV Require Import C14.FileLenModel C14.FileLenProofs.
+
+(* truncate_reaches_the_file: after stdio_truncate(n) returns, the file a kill leaves behind IS n bytes long, the cached
+   size is n, and exactly one ftruncate(n) was issued *)
+Theorem truncate_reaches_the_file : forall st n,
+  let r := fd_trunc Physical st n in
+  fd_size (fst r) = n /\ flen (fd_file (fst r)) = n /\ snd r = [Truncate n] /\
+  fd_file (fst r) = truncate (N.to_nat n) (fd_file st).
+Proof. exact fd_trunc_physical. Qed.
+Print Assumptions truncate_reaches_the_file.
+
+(* truncate_is_physical: for every sequence of write_at / truncate calls on the descriptor (no empty write behind the
+   cached size: fops_ok) and every kill point j (number of descriptor calls that returned; each issues at most one
+   system call), the file left behind is `apply` of the system calls issued so far and its LENGTH is the descriptor's
+   logical size get_size() = size_after of those calls.  So "writes at get_size()" are writes at the physical end. *)
+Theorem truncate_is_physical : forall ops, fops_ok Physical fd0 ops = true ->
+  forall j, let r := fd_run Physical fd0 (firstn j ops) in
+  fd_file (fst r) = apply (snd r) /\
+  fd_size (fst r) = flen (fd_file (fst r)) /\
+  fd_size (fst r) = size_after (snd r).
+Proof. exact truncate_is_physical_l. Qed.
+Print Assumptions truncate_is_physical.
+
+(* the variant whose shrinking truncate only lowers the cached size does not have the invariant *)
+Theorem lazy_truncate_refuted :
+  exists ops, fops_ok Lazy fd0 ops = true /\
+    let st := fst (fd_run Lazy fd0 ops) in fd_size st <> flen (fd_file st).
+Proof. exact lazy_truncate_refuted_l. Qed.
+Print Assumptions lazy_truncate_refuted.
+
+(* whole_file_after_commit: if the calls behind the commit only append (each write starts at the end of the file as it
+   is then, no truncation: appendsb - with truncate_is_physical that is what write_at(get_size()) does), then the WHOLE
+   file left at any kill point behind the commit is a prefix of the final file: nothing a later call or the close still
+   removes.  (pre = the calls up to and including the commit.) *)
+Theorem whole_file_after_commit : forall pre tail, appendsb (apply pre) tail = true ->
+  forall j, exists rest, apply (pre ++ tail) = apply (pre ++ firstn j tail) ++ rest.
+Proof. exact whole_file_after_commit_l. Qed.
+Print Assumptions whole_file_after_commit.
+
+(* non-vacuity + the refutation of the lazy variant at the level of the property.  wit_ops: provisional super block, a
+   40 byte block at 96, its duplicate at 136 rolled back by truncate(136), 24 bytes of tables, commit (bytes_used 160),
+   8 bytes of padding.  Physical: hypotheses of truncate_is_physical / whole_file_after_commit hold, the calls are
+   trace_ok, every kill point is refused (x9) or a whole-file prefix of the complete file containing bytes_used (x2). *)
+Example ex_physical_descriptor :
+  let tr := snd (fd_run Physical fd0 wit_ops) in
+  fops_ok Physical fd0 wit_ops = true /\ trace_okb tr = true /\ commit_index tr = 8%nat /\
+  appendsb (apply (firstn 9 tr)) (skipn 9 tr) = true /\
+  map (fun j => (accepts (fd_left Physical wit_ops j), whole_okb (fd_left Physical wit_ops j) (fd_final Physical wit_ops)))
+      (seq 0 11) =
+  repeat (false, false) 9 ++ [(true, true); (true, true)].
+Proof. exact wit_physical_ok. Qed.
+
+(* completed runs of both variants leave the same 168 bytes ... *)
+Example ex_lazy_same_final : fd_final Lazy wit_ops = fd_final Physical wit_ops /\ flen (fd_final Physical wit_ops) = 168.
+Proof. exact wit_same_final. Qed.
+
+(* ... but killed after the commit (or after the padding, before the close) the lazy descriptor leaves a 176 byte file
+   that every reader opens, whose super block and bytes [0, bytes_used) are the complete image's (the older oracle
+   `image_of left = image_of final` is satisfied) and which is NOT the complete file: 8 stale bytes of the rolled-back
+   copy follow it *)
+Theorem lazy_kill_not_complete_refuted :
+  let final := fd_final Lazy wit_ops in
+  fops_ok Lazy fd0 wit_ops = true /\
+  map (fun j => let left := fd_left Lazy wit_ops j in
+                (accepts left, list_eqb (image_of left) (image_of final), flen left, whole_okb left final)) [9%nat; 10%nat] =
+  [(true, true, 176, false); (true, true, 176, false)] /\
+  flen final = 168 /\
+  skipn 168 (fd_left Lazy wit_ops 10) = [33; 34; 35; 36; 37; 38; 39; 40].
+Proof. exact lazy_kill_not_complete_l. Qed.
+Print Assumptions lazy_kill_not_complete_refuted.
+
+(* the hypothesis of whole_file_after_commit on the traces of the earlier sections: ex_trace (hand-written, commit = call 8),
+   the composed writer model's run exf_run (commit = call 20) and the composed packer's run ex_pack_run (commit = call 17):
+   behind the commit the calls only append, and the file at every kill point behind the commit is a whole-file prefix of
+   the complete file that contains [0, bytes_used) *)
+Example ex_tails_append :
+  appendsb (apply (firstn 9 ex_trace)) (skipn 9 ex_trace) = true /\
+  map (fun k => whole_okb (apply (firstn k ex_trace)) (apply ex_trace)) [9%nat; 10%nat] = [true; true] /\
+  match exf_run return Prop with
+  | FOk inp w tr =>
+      commit_index tr = 20%nat /\ appendsb (apply (firstn 21 tr)) (skipn 21 tr) = true /\
+      map (fun k => whole_okb (apply (firstn k tr)) (image_bytes w)) [21%nat; 22%nat] = [true; true]
+  | _ => False
+  end /\
+  match ImgE2E.Example.ex_run return Prop with
+  | PDone r =>
+      let tr := pack_trace ImgE2E.Example.ex_pi r in
+      appendsb (apply (firstn 18 tr)) (skipn 18 tr) = true /\
+      map (fun k => whole_okb (apply (firstn k tr)) (image_bytes (r_w r))) [18%nat; 19%nat] = [true; true]
+  | _ => False
+  end.
+Proof. vm_compute. repeat split; reflexivity. Qed.
